@@ -383,6 +383,87 @@ func faultySourcePush(run *evid.Run, idx int) {
 	}
 }
 
+// unequalWrites: writes through the unifier over members that are NOT equal (repositories, tags and
+// content known to one member only). The first half of the write rule does not depend on the members
+// being equal: the write reaches both members, and success is reported only if both calls succeeded.
+func unequalWrites(run *evid.Run, idx int) {
+	rng := run.Rand(155, uint64(idx))
+	u := model.SmallUniverse()
+	m0, m1 := ocimem.New(), ocimem.New()
+	switch idx % 3 {
+	case 0:
+		populate(rng, u, m0, 25, []string{"a", "a/b"})
+		populate(rng, u, m1, 25, []string{"c"})
+	case 1:
+		populate(rng, u, m0, 35, u.Repos)
+		populate(rng, u, m1, 35, u.Repos)
+	case 2:
+		populate(rng, u, m1, 30, u.Repos)
+	}
+	r0, r1 := rec.New(m0), rec.New(m1)
+	env := model.NewEnv(ociunify.New(r0.Interface(), r1.Interface(), &ociunify.Options{ReadPolicy: ociunify.ReadPolicy(idx % 2)}))
+	// what either member knows
+	var ops []*model.Op
+	for mi, mreg := range []ociregistry.Interface{m0, m1} {
+		d := model.NewEnv(mreg)
+		for _, repo := range d.Exec(&model.Op{Kind: "Repositories"}).Items {
+			for _, tag := range d.Exec(&model.Op{Kind: "Tags", Repo: repo}).Items {
+				if t := d.Exec(&model.Op{Kind: "ResolveTag", Repo: repo, Tag: tag}); t.OK && rng.IntN(2) == mi {
+					ops = append(ops, &model.Op{Kind: "DeleteTag", Repo: repo, Tag: tag}, &model.Op{Kind: "DeleteManifest", Repo: repo, Digest: t.Digest})
+				}
+			}
+			for _, b := range u.Blobs {
+				if rng.IntN(3) == 0 {
+					ops = append(ops, &model.Op{Kind: "DeleteBlob", Repo: repo, Digest: model.Digest(b)})
+				}
+			}
+			nb := []byte(fmt.Sprintf("pushed into unequal members %d", idx))
+			ops = append(ops, &model.Op{Kind: "PushBlob", Repo: repo, Data: nb, Digest: model.Digest(nb), Size: int64(len(nb)), MediaType: "application/octet-stream"},
+				&model.Op{Kind: "MountBlob", From: repo, Repo: "mounted/into", Digest: model.Digest(u.Blobs[rng.IntN(len(u.Blobs))])})
+		}
+	}
+	rng.Shuffle(len(ops), func(i, j int) { ops[i], ops[j] = ops[j], ops[i] })
+	run.Eval(1)
+	for _, op := range ops {
+		n0, n1 := r0.Len(), r1.Len()
+		var out *model.Outcome
+		if !run.Case("unequal/total", map[string]any{"op": op.String()}, func() { out = env.Exec(op) }) {
+			return
+		}
+		c0, c1 := r0.Since(n0), r1.Since(n1)
+		failed := func(cs []*rec.Call) (string, bool) {
+			for _, c := range cs {
+				if writeKinds[c.Method] && c.Err != nil {
+					return c.Err.Error(), true
+				}
+			}
+			return "", false
+		}
+		wrote := func(cs []*rec.Call) bool {
+			for _, c := range cs {
+				if writeKinds[c.Method] {
+					return true
+				}
+			}
+			return false
+		}
+		e0, f0 := failed(c0)
+		e1, f1 := failed(c1)
+		run.Count("unequal_member_writes", 1)
+		if f0 != f1 {
+			run.Count("unequal_member_writes_one_member_failed", 1)
+		}
+		run.Distinct(fmt.Sprintf("unequal/%s/m0-failed=%v/m1-failed=%v/%s", op.Kind, f0, f1, out.Class()))
+		w := map[string]any{"op": op, "unified": out.String(), "member0_error": e0, "member1_error": e1}
+		if out.OK && (f0 || f1) {
+			run.Violation("unequal/success-although-a-member-failed/"+op.Kind, fmt.Sprintf("%s through the unifier reported success although a member's call failed (member 0: %q, member 1: %q)", op, e0, e1), w)
+		}
+		if out.OK && !(wrote(c0) && wrote(c1)) {
+			run.Violation("unequal/not-both-members/"+op.Kind, fmt.Sprintf("%s through the unifier reported success but reached member 0: %v, member 1: %v", op, wrote(c0), wrote(c1)), w)
+		}
+	}
+}
+
 // ---------- B. replicated writes
 
 var writeKinds = map[string]bool{"PushBlob": true, "PushBlobChunked": true, "PushBlobChunkedResume": true, "MountBlob": true, "PushManifest": true, "DeleteBlob": true, "DeleteManifest": true, "DeleteTag": true}
@@ -545,7 +626,7 @@ func gramOK(op *model.Op) bool {
 
 func main() {
 	run := evid.Start("C15", "exploration")
-	run.SetRule("A: pairs of member states (equal / disjoint repositories / overlapping with conflicting tags / one empty) built by direct histories; every read, resolve, range read and listing over the universe goes through the unifier under both read policies and is compared with the union of the members' direct answers. A2: the same digest-addressed reads with one member (either) answering reads with denied / unauthorized / too-many-requests / unsupported / a transport error while the other is healthy: readable exactly when the healthy member has it, under both policies. A3: PushBlob through the unifier from a source reader that fails at the start, midway or exactly at the end of the content (error with or after the last bytes): equal members stay equal. B: write histories (all write methods, composite and fine-grained chunked uploads, deletes) through the unifier over two recording members that start equal, a third of them with an injected failure in one member. " +
+	run.SetRule("A: pairs of member states (equal / disjoint repositories / overlapping with conflicting tags / one empty) built by direct histories; every read, resolve, range read and listing over the universe goes through the unifier under both read policies and is compared with the union of the members' direct answers. A2: the same digest-addressed reads with one member (either) answering reads with denied / unauthorized / too-many-requests / unsupported / a transport error while the other is healthy: readable exactly when the healthy member has it, under both policies. A3: PushBlob through the unifier from a source reader that fails at the start, midway or exactly at the end of the content (error with or after the last bytes): equal members stay equal. A4: deletes, pushes and mounts through the unifier over members that are not equal: success only if both members' calls succeeded. B: write histories (all write methods, composite and fine-grained chunked uploads, deletes) through the unifier over two recording members that start equal, a third of them with an injected failure in one member. " +
 		"distinct_nontrivial = distinct (method, state shape, how many members have it, outcome class) for A and (method, outcome class, injected?) for B; trivial = reads of things neither member has (counted but the least interesting).")
 	run.Assume("digest-addressed content found in both members is the same content (true by content addressing); manifest media types may differ between members and are not compared in A")
 	run.Assume("after an injected member failure the members may diverge; equality of members is asserted only for fault-free prefixes")
@@ -561,6 +642,10 @@ func main() {
 	for i, n := 0, run.N(60, 2000); i < n; i++ {
 		faultySourcePush(run, i)
 	}
+	for i, n := 0, run.N(60, 1500); i < n; i++ {
+		unequalWrites(run, i)
+	}
+	run.FloorCounter("unequal_member_writes_one_member_failed", 50)
 	nw := run.N(400, 8000)
 	for i := 0; i < nw; i++ {
 		writeHistory(run, i)
